@@ -55,8 +55,14 @@ def corrupt_intermediate(world, st):
 CORR = {"router_keeps_one": corrupt_skim, "intermediate_asset_to_recipient": corrupt_intermediate}
 
 
+def path_walk(world, gen_):
+    for c in gen_.walk_paths():
+        yield c
+
+
 def run_shard(acc, prop, tier, seed, shard, nshards, **kw):
-    _w.shard(acc, PROP, tier, seed, shard, nshards, factory, WEIGHTS, (12, (140, 220)), (500, (140, 300)), CORR)
+    _w.shard(acc, PROP, tier, seed, shard, nshards, factory, WEIGHTS, (12, (140, 220)), (500, (140, 300)), CORR,
+             post_hook=path_walk, post_every=(2, 1))
 
 
 def floors(acc, tier):
@@ -65,6 +71,7 @@ def floors(acc, tier):
     for h in (1, 2, 3, 4):
         _w.need(acc, msgs, "routes_ok_%dhop" % h, 40)
     _w.need(acc, msgs, "routes_ok_revisiting_final_asset", 5)
+    _w.need(acc, msgs, "worlds_with_exhaustive_walk", 48)
     for bm in ("empty", "dangling", "merge"):
         if not any(("|" + bm + "|") in k for k in acc.classes):
             msgs.append("bad route shape %s never attempted" % bm)
@@ -73,7 +80,8 @@ def floors(acc, tier):
 
 RULE = ("router transactions over all simple paths and cycles of 1..4 hops of each world's pair graph (nn, nt, tn, tt pairs), native "
         "and cw20 entry, any recipient, input sizes from dust to several times the first reserve, pool states shaped by prior history; "
-        "plus empty, dangling (>1 output), merging ([A->B, C->B]), unknown-pair, wrong-entry and repeated-pair routes. "
+        "in every second world (quick; every world in thorough) ALL routes of the pair graph (simple paths, cycles, routes revisiting their final "
+        "asset; 1..4 hops) are additionally walked exhaustively in the final state; plus empty, dangling (>1 output), merging ([A->B, C->B]), unknown-pair, wrong-entry and repeated-pair routes. "
         "Class = (hops, entry kind, outcome, minimum relation, recipient kind, route shape, staleness, cycle?).")
 
 
